@@ -21,9 +21,12 @@ const RLIMIT_AS: i32 = 9;
 /// file (any byte written there by the subject is reported as `stdout_bytes`).
 pub fn worker_main(space: &str, handler: &dyn Fn(&str, u64) -> Value) -> i32 {
     use std::os::unix::io::{AsRawFd, FromRawFd};
-    let mem_gb: u64 = std::env::var("VERIF_WORKER_MEM_GB").ok().and_then(|v| v.parse().ok()).unwrap_or(4);
+    // address-space cap per worker: 16 workers run side by side, so the spaces whose subject can loop while allocating
+    // (BVH construction, indicators) get 1.5 GiB each, the file converters 4 GiB
+    let default_mb: u64 = if space.starts_with("c13") || space.starts_with("c14") { 1536 } else { 4096 };
+    let mem_mb: u64 = std::env::var("VERIF_WORKER_MEM_GB").ok().and_then(|v| v.parse::<u64>().ok()).map(|g| g * 1024).unwrap_or(default_mb);
     unsafe {
-        let lim = [mem_gb << 30, mem_gb << 30];
+        let lim = [mem_mb << 20, mem_mb << 20];
         setrlimit(RLIMIT_AS, &lim);
     }
     let proto_fd = unsafe { dup(1) };
